@@ -72,6 +72,8 @@ class Ctx:
         self.t0 = time.time()
         self.violations: list[tuple[str, dict]] = []
         self._viol_keys: dict[str, int] = {}
+        self.growth: list[tuple[str, dict]] = []
+        self._growth_keys: dict[str, int] = {}
         self.evaluations = 0
         self.nontrivial: set | int = set()
         self._nontrivial_count = 0
@@ -94,6 +96,15 @@ class Ctx:
         self._viol_keys[key] = n + 1
         if n < 5:
             self.violations.append((key, detail or {}))
+
+    def growth_finding(self, key: str, detail: dict | None = None):
+        """A deviation found by a part of the specification that goes *beyond* the listed property
+        (growth of the spec, DESIGN §8).  It is reported (GROWTH-FINDING line, evidence) but is not a
+        violation of the property this check decides, so it never changes the exit code."""
+        n = self._growth_keys.get(key, 0)
+        self._growth_keys[key] = n + 1
+        if n < 3:
+            self.growth.append((key, detail or {}))
 
     def case(self, nontrivial_id=None, n: int = 1):
         """Count evaluated cases; `nontrivial_id` (hashable) marks a distinct non-trivial case."""
@@ -167,6 +178,8 @@ class Ctx:
             print('  ' + dumps(detail)[:600])
             rc = 1
         n_unknown_keys = len(seen_keys)
+        for key, n in self._growth_keys.items():
+            print(f'GROWTH-FINDING: beyond property {self.prop}: {key} ({n} occurrence(s))')
         wall = time.time() - self.t0
         nontriv = len(self.nontrivial) if isinstance(self.nontrivial, set) else self.nontrivial
         cov = {
@@ -180,6 +193,7 @@ class Ctx:
             'rule': self.rule,
             'tlc_runs': self.tlc_runs,
             'known_findings_reported': sorted(reported_known),
+            'growth_findings': [{'key': k, 'occurrences': n} for k, n in self._growth_keys.items()],
         }
         if self.exhaustive is not None:
             cov['exhaustive'] = bool(self.exhaustive)
